@@ -263,11 +263,24 @@ class SharedChord(Stream):
                 elif f == "kind":
                     m = dict(rand_note(rng), val=m["val"], oct=m["oct"])
                 notes.append(m)
-            yield {"chord": c, "notes": notes}
+            case = {"chord": c, "notes": notes}
+            if rng.random() < 0.3:
+                case["shared_key"] = rng.choice([1, -1, 2])
+            yield case
 
     def impl(self, case):
         def f():
             shared = mlang.mk_chord(case["chord"])
+            if case.get("shared_key"):
+                # the same Tonality OBJECT used with % for two chords, the first one moved by octaves: the second chord's pitches
+                # (and this one's) must be those of chords built from separate, equal tonalities
+                from musiclang import Chord
+                c = case["chord"]
+                key = mlang.mk_tonality(c)
+                other = Chord(element=(c["elem"] + 3) % 7, octave=case["shared_key"]) % key
+                shared = Chord(element=c["elem"], extension=mlang.ext_string(c["fig"], c.get("repl", ()), c.get("adds", ()), c.get("rems", ())),
+                               octave=c["coct"]) % key
+                _ = mlang.guarded(lambda: other.to_pitch(mlang.mk_note(case["notes"][0])))
             got, fresh = [], []
             for n in case["notes"]:
                 for lst, ch in ((got, shared), (fresh, mlang.mk_chord(case["chord"]))):
@@ -296,5 +309,47 @@ class SharedChord(Stream):
                 yield dict(case, notes=ns[:i] + ns[i + 1:])
 
 
+class SpelledKeys(Stream):
+    """tonalities written with the library symbols: a degree symbol, any number of .b / .s (C flat = I.b, B sharp = VII.s cross the
+    octave), a mode, an octave - the pitch of a note is that of the tonality degree + 12 x octave they denote"""
+    name = "to_pitch_spelled_keys"
+    checker = None
+    pair = "property oracle: (X % SYMBOL.b....mode.o(k)).to_pitch(note) vs the documented pitch in the tonality base + sharps - flats"
+    quick, thorough = 600, 8000
+    ROMAN = ["I", "II", "III", "IV", "V", "VI", "VII"]
+    BASE = [0, 2, 4, 5, 7, 9, 11]
+
+    def gen(self, rng, n):
+        for _ in range(n):
+            yield {"sym": rng.randrange(7), "acc": [rng.choice("bs") for _ in range(rng.choice([0, 1, 1, 1, 2, 3]))], "mode": rng.choice(MODES),
+                   "toct": rng.choice([0, 0, 1, -1]), "elem": rng.randrange(7), "fig": rng.choice(["", "6", "7"]), "coct": rng.choice([0, 0, 1]),
+                   "note": rand_note(rng)}
+
+    def impl(self, case):
+        import musiclang.library as lib
+        def f():
+            t = getattr(lib, self.ROMAN[case["sym"]])
+            for a in case["acc"]:
+                t = getattr(t, a)
+            t = getattr(t, case["mode"]).o(case["toct"])
+            ch = (getattr(lib, self.ROMAN[case["elem"]]) % t)[case["fig"]].o(case["coct"]) if case["fig"] else (getattr(lib, self.ROMAN[case["elem"]]) % t).o(case["coct"])
+            r = ch.to_pitch(mlang.mk_note(case["note"]))
+            return None if r is None else int(r)
+        return mlang.guarded(f)
+
+    def spec(self, case, r):
+        deg = self.BASE[case["sym"]] + sum(1 if a == "s" else -1 for a in case["acc"])
+        c = {"elem": case["elem"], "fig": case["fig"], "tdeg": deg, "tmode": case["mode"], "toct": case["toct"], "coct": case["coct"]}
+        want = spec_pitch(c, case["note"])
+        if want is None or want == "raises":
+            return None
+        if mlang.is_exc(r) or r != want:
+            return {"sig": "pitch-spelled-key:" + "".join(case["acc"]), "msg": f"{self.ROMAN[case['sym']]}{''.join('.' + a for a in case['acc'])}.{case['mode']}.o({case['toct']}): documented pitch {want}, library gives {r}"}
+        return None
+
+    def nontrivial(self, case, r):
+        return bool(case["acc"])
+
+
 def streams():
-    return [ToPitch(), PitchLists(), SharedChord()]
+    return [ToPitch(), PitchLists(), SharedChord(), SpelledKeys()]
